@@ -12,18 +12,26 @@ ENTRY = {
         "quick": T(16, 180), "thorough": T(16, 900),
         "rule": "part 1: one execution per (request type, argument class / I/O fault, source running or not) and per select alternative, through the real SourceControl "
                 "methods, runLaterIfActive, the real CoreLoop and the real handlers of a scripted two-channel source; every request that has to be refused is also sent twice in a row, "
-                "and every request is also followed by Stop, Start (with the record lengths of the server status, as SourceControl.Start does), an edge trigger and two blocks with pulses; part 2: one execution = one complete interleaving "
+                "and every request is also followed by Stop, Start (with the record lengths of the server status, as SourceControl.Start does), an edge trigger and two blocks with pulses, "
+                "also sent inside a triggering run (edge trigger on both channels, a block with a pulse before and two after the request, so that records are cut and analysed with the channel's model after the reply), "
+                "and also sent while a block is being processed (the scripted source's ProcessSegments is an interval with a scheduling point after its begin and before its end; the client waits for the begin); "
+                "projector requests cover every pair of {well-formed, other row count, wrong column count} projector matrix and {well-formed, wrong row count, other column count} basis matrix, for a channel without a model and for one that has a model of another shape; part 2: one execution = one complete interleaving "
                 "(preemption-bounded) of requester thread(s), CoreLoop, producer and optional Stop caller; oracle: every call returns exactly once (no deadlock), error iff "
                 "the arguments are invalid / no source runs / the I/O step fails, the next blocks are still processed and further requests answered, no handler runs while a "
                 "block is being processed (exclusion monitor), no crash; an invalid request is refused again when repeated; a request answered with an error leaves the STATUS "
                 "content unchanged (server status and every STATUS message sent while it was handled); the run after Stop + Start uses the record lengths of the last "
-                "record-length request answered with success and its triggered records (at least one, else the harness reports itself vacuous) have that shape; non-trivial (part 2) = at least one preemption",
+                "record-length request answered with success and its triggered records (at least one, else the harness reports itself vacuous) have that shape; in a triggering run a request answered with an error "
+                "leaves the set of channels with a model and the triggered records (lengths, number of model coefficients, still produced) as before it, an accepted model shows in the records of the later blocks, "
+                "and analysing those records does not crash; part 2 also sends every request type (trigger, lengths, projectors, write control, label, comment, FB/error coupling, group trigger add/delete/stop, raw block, mix) "
+                "when the processing of a block has begun; non-trivial (part 2) = at least one preemption",
         "assumptions": ["hw/abaco scenario: the real AbacoSource with a scripted packet producer and a clock thread for the reader's ticker (a seam); delay-bounded",
                         "SourceControl built as RunRPCServer does, minus network; the source is attached the way SourceControl.Start does after choosing it by name",
                         "the fire-and-forget mode of SetExperimentStateLabel is excluded (statement)",
                         "StoreRawDataBlock with N <= 0: the statement does not say whether that is an error; only 'no crash, no hang' is required",
                         "I/O faults produced with a directory or regular file in the way (the sandbox runs as root)",
-                        "an error reply means the request was refused: the ServerStatus a client is told (STATUS messages) must be what it was before the request",
+                        "an error reply means the request was refused: the ServerStatus a client is told (STATUS messages) must be what it was before the request, "
+                        "and so must the channels' models and triggering (what the next records look like)",
+                        "ConfigureMixFraction is served on the client thread by design (a Lancero source queues the change itself, C04); it is not a mutator of the scripted generic source",
                         "WriteControl START with a pixel map that does not fit the source is refused with 'map file invalidated' and the map is unloaded (documented reaction): "
                         "the same START sent again is a START without a map and may succeed; every other refused request must be refused again when repeated"],
         "technique": "stateless model checking of the real goroutines under a controlled scheduler (preemption-bounded DFS over scheduling and select choices) + exhaustive argument-class enumeration",
